@@ -396,6 +396,12 @@ qint64 Socket::readData(char *data, qint64 maxlen)
 
     // Ensure that no more than the requested amount or the size of the buffer is read
     qint64 size = qMin(static_cast<qint64>(d->readBuffer.size()), maxlen);
+
+    // QIODevice invokes readData(nullptr, 0) once its own buffer is drained
+    if (size <= 0) {
+        return 0;
+    }
+
     memcpy(data, d->readBuffer.constData(), size);
 
     // Remove the amount that was read from the buffer
